@@ -7,10 +7,10 @@ import CE.Canon
   Stream-level CBE round trip for the structural fragment of the event alphabet: containers,
   Booleans, null, padding, comments, integers of every width and sign (all three integer event
   forms), big integers up to 8192 bits, binary floats of every kind except doubles in the float32
-  subnormal range, identifiers (markers, references, records, record types), UIDs, strings and resource
+  subnormal range, decimal floats and big decimals (exponent within int32), identifiers (markers, references, records, record types), UIDs, strings and resource
   identifiers of any length and typed arrays of byte-multiple elements sent whole (short form
   and chunk-header form) — streams of any length and
-  nesting.  What is NOT in the fragment: float32-subnormal doubles, decimal floats, times,
+  nesting.  What is NOT in the fragment: float32-subnormal doubles, times,
   bit arrays, media, custom types and arrays sent in several chunks (their per-event behaviour is tied by the CBE.ENC / CBE.DEC correspondence and
   the round-trip oracle of `bin/check C01`).
 -/
@@ -29,6 +29,31 @@ def renormFloat (b : Nat) : List Ev :=
   else [.float b]
 
 
+/-- decimal floats within the ranges of their Go types (exponent int32, coefficient int64) -/
+def dfOK : DF → Bool
+  | .val e c => decide (e.natAbs < 2 ^ 31) && decide (c.natAbs < 2 ^ 63)
+  | _ => true
+
+def renormDF : DF → List Ev
+  | .zero => [.int 0]
+  | .negZero => [.negInt 0]
+  | .val e c => if c = 0 then [.int 0] else [.dfloat (.val e c)]
+  | d => [.dfloat d]
+
+/-- big decimals: any coefficient, exponent within int32 -/
+def bdOK : BigDec → Bool
+  | .val _ _ e => decide (e.natAbs < 2 ^ 31)
+  | _ => true
+
+def renormBD : BigDec → List Ev
+  | .val neg c e =>
+    if c = 0 then (if neg then [.negInt 0] else [.int 0])
+    else if c < 2 ^ 63 then [.dfloat (.val e (if neg then -(c : Int) else c))]
+    else [.bigDecimal (some (.val neg c e))]
+  | .inf neg => [.dfloat (if neg then .negInf else .inf)]
+  | .nan => [.dfloat .nan]
+  | .snan => [.dfloat .snan]
+
 /-- typed arrays whose elements are whole bytes -/
 def typedArr : ArrT → Bool
   | .u8 | .u16 | .u32 | .u64 | .i8 | .i16 | .i32 | .i64 | .f16 | .f32 | .f64 | .uid => true
@@ -41,6 +66,9 @@ def simple : Ev → Bool
   | .posInt n | .negInt n => decide (n < 2 ^ 64)
   | .int i => decide (-(2 : Int) ^ 63 ≤ i ∧ i < 2 ^ 63)
   | .float b => floatOK b
+  | .dfloat d => dfOK d
+  | .bigDecimal none => true
+  | .bigDecimal (some d) => bdOK d
   | .bigInt (some i) => decide (i.natAbs < 2 ^ 8192)
   | .marker id | .refLocal id | .record id | .recordType id =>
     decide (0 < id.length ∧ id.length ≤ maxIdentifierLength)
@@ -57,6 +85,9 @@ def renorm : Ev → List Ev
   | .bigInt (some i) =>
     if i.natAbs < 2 ^ 64 then (if 0 ≤ i then [renormPos i.natAbs] else [renormNeg i.natAbs]) else [.bigInt (some i)]
   | .float b => renormFloat b
+  | .dfloat d => renormDF d
+  | .bigDecimal none => [.null]
+  | .bigDecimal (some d) => renormBD d
   | .posInt n => [renormPos n]
   | .negInt n => [renormNeg n]
   | .int i => if 0 ≤ i then [renormPos i.toNat] else [renormNeg (-i).toNat]
@@ -93,6 +124,8 @@ theorem encodeEv_simple (st : EncSt) (e : Ev) (h : simple e = true) :
     | some hd => exact ⟨_, rfl⟩
     | none => rcases h.1 with rfl | rfl <;> exact ⟨_, rfl⟩
   case bigInt o => cases o <;> exact ⟨_, rfl⟩
+  case bigDecimal o => cases o <;> exact ⟨_, rfl⟩
+  case dfloat d => exact ⟨_, rfl⟩
   case array t c d =>
     simp only [simple, Bool.and_eq_true, decide_eq_true_eq] at h
     simp only [encodeEv, bind, Except.bind, encArrayWhole]
@@ -386,6 +419,187 @@ theorem decodeOne_encFloat (b : Nat) (hok : floatOK b = true) (rest : Bytes) :
 
 /-- one decoder step reads back exactly the event (in the decoder's normal form) and leaves
     whatever follows untouched -/
+theorem ulebLen_one (f : Nat) (h : ulebLen f = 1) : f < 128 := by
+  unfold ulebLen at h
+  split at h
+  · assumption
+  · have : 1 ≤ ulebLen (f / 128) := by unfold ulebLen; split <;> omega
+    omega
+
+theorem ulebLen_63 (c : Nat) (h : c < 2 ^ 63) : ulebLen c ≤ 9 := by
+  apply ulebLen_le c 9 _ (by omega)
+  have : (2 : Nat) ^ 63 = 128 ^ 9 := by decide
+  omega
+
+theorem decodeDecimal_field (e : Int) (neg : Bool) (c : Nat) (he : e.natAbs < 2 ^ 31) (hc0 : c ≠ 0) (rest : Bytes) :
+    decodeDecimal (uleb ((e.natAbs * 4 + (if e < 0 then 2 else 0) + (if neg then 1 else 0)) % 2 ^ 64) ++ uleb c ++ rest) =
+      .ok (if c < 2 ^ 63 then .dfloat (.val e (if neg then -(c : Int) else c))
+           else .bigDecimal (some (.val neg c e)), rest) := by
+  generalize hfield : e.natAbs * 4 + (if e < 0 then 2 else 0) + (if neg then 1 else 0) = field
+  have hf33 : field < 2 ^ 33 := by subst hfield; split <;> split <;> omega
+  have hmodf : field % 2 ^ 64 = field := Nat.mod_eq_of_lt (by omega)
+  simp only [hmodf]
+  unfold decodeDecimal
+  rw [List.append_assoc, unuleb_uleb field (by omega)]
+  simp only []
+  -- the field is never one of the escape codes
+  have hne2 : field ≠ 2 := by subst hfield; split <;> split <;> omega
+  have hne3 : field ≠ 3 := by subst hfield; split <;> split <;> omega
+  have c1 : ¬ (ulebLen field = 1 ∧ field = 2) := fun h => hne2 h.2
+  have c2 : ¬ (ulebLen field = 1 ∧ field = 3) := fun h => hne3 h.2
+  have hk2 : ∀ v, v < 128 → ¬ (ulebLen field = 2 ∧ field = v) := by
+    intro v hv h
+    have : ulebLen field = 1 := by rw [h.2]; unfold ulebLen; simp [hv]
+    omega
+  simp only [c1, c2, hk2 0 (by decide), hk2 1 (by decide), hk2 2 (by decide), hk2 3 (by decide), if_false]
+  have hbig : ¬ field > 0x1ffffffff := by omega
+  simp only [hbig, if_false]
+  rw [unulebRaw_uleb c rest]
+  simp only []
+  -- recover exponent and sign from the field
+  have hneg : (field % 2 == 1) = neg := by
+    by_cases h1 : e < 0 <;> cases neg <;> simp only [h1, if_true, if_false, Bool.false_eq_true] at hfield <;>
+      simp only [beq_iff_eq, beq_eq_false_iff_ne, ne_eq] <;> omega
+  have heneg : (field / 2 % 2 == 1) = decide (e < 0) := by
+    by_cases h1 : e < 0 <;> cases neg <;> simp only [h1, if_true, if_false, Bool.false_eq_true] at hfield <;>
+      simp only [h1, decide_true, decide_false, beq_iff_eq, beq_eq_false_iff_ne, ne_eq] <;> omega
+  have hmag : field / 4 = e.natAbs := by subst hfield; split <;> split <;> omega
+  simp only [hneg, heneg, hmag]
+  have hlt : e.natAbs < 2 ^ 31 := he
+  simp only [hlt, if_true]
+  have he' : (if decide (e < 0) = true then -(e.natAbs : Int) else (e.natAbs : Int)) = e := by
+    by_cases h : e < 0 <;> simp [h] <;> omega
+  rw [he']
+  by_cases hc : c < 2 ^ 63
+  · have hk : ulebLen c ≤ 18 ∧ c < 2 ^ 63 := ⟨by have := ulebLen_63 _ hc; omega, hc⟩
+    simp only [hk, and_self, if_true, hc]
+    have : (if neg = true then -(c : Int) else (c : Int)) ≠ 0 := by cases neg <;> simp <;> omega
+    simp [DF.mk, this]
+  · have hk : ¬ (ulebLen c ≤ 18 ∧ c < 2 ^ 63) := fun h => hc h.2
+    simp [hc]
+
+theorem decodeDecimal_val (e c : Int) (he : e.natAbs < 2 ^ 31) (hc : c.natAbs < 2 ^ 63) (hc0 : c ≠ 0) (rest : Bytes) :
+    decodeDecimal (encDFloatVal e c ++ rest) = .ok (.dfloat (.val e c), rest) := by
+  unfold encDFloatVal
+  simp only []
+  have hmodc : c.natAbs % 2 ^ 64 = c.natAbs := Nat.mod_eq_of_lt (by omega)
+  have := decodeDecimal_field e (decide (c < 0)) c.natAbs he (by omega) rest
+  simp only [decide_eq_true_eq, hc, if_true] at this
+  rw [hmodc, this]
+  have hc' : (if c < 0 then -(c.natAbs : Int) else (c.natAbs : Int)) = c := by
+    by_cases h : c < 0 <;> simp [h] <;> omega
+  rw [hc']
+
+theorem decodeOne_encDFloat (d : DF) (hok : dfOK d = true) (rest : Bytes) :
+    encDFloat d ≠ [] ∧ decodeOne (encDFloat d ++ rest) = .ok (renormDF d, rest) := by
+  cases d with
+  | zero =>
+    have h := decodeOne_encPosInt 0 (by decide) rest
+    simp only [encPosInt, renormPos] at h
+    refine ⟨by simp [encDFloat, encZero], ?_⟩
+    simpa [smallIntMax, u8, encDFloat, encZero, renormDF] using h
+  | negZero =>
+    have h := decodeOne_encNegInt 0 (by decide) rest
+    simp only [encNegInt, if_true, renormNeg] at h
+    exact ⟨by simp [encDFloat, encZero], by simpa [encDFloat, encZero, renormDF] using h⟩
+  | inf =>
+    refine ⟨by simp [encDFloat, encInf], ?_⟩
+    simp only [encDFloat, encInf, renormDF, Bool.false_eq_true, if_false]
+    rw [List.cons_append, decodeOne_byte _ .decimal (by decide)]
+    simp only [decodeTok, List.cons_append, List.nil_append]
+    have := decodeDecimal_special 0x82 (by decide) rest
+    simp at this
+    rw [lift_bind_ok _ _ (fun p : Ev × Bytes => ([p.1], p.2)) this]
+  | negInf =>
+    refine ⟨by simp [encDFloat, encInf], ?_⟩
+    simp only [encDFloat, encInf, renormDF, if_true]
+    rw [List.cons_append, decodeOne_byte _ .decimal (by decide)]
+    simp only [decodeTok, List.cons_append, List.nil_append]
+    have := decodeDecimal_special 0x83 (by decide) rest
+    simp at this
+    rw [lift_bind_ok _ _ (fun p : Ev × Bytes => ([p.1], p.2)) this]
+  | nan =>
+    refine ⟨by simp [encDFloat, encNaN], ?_⟩
+    simp only [encDFloat, encNaN, renormDF, Bool.false_eq_true, if_false]
+    rw [List.cons_append, decodeOne_byte _ .decimal (by decide)]
+    simp only [decodeTok, List.cons_append, List.nil_append]
+    have := decodeDecimal_special 0x80 (by decide) rest
+    simp at this
+    rw [lift_bind_ok _ _ (fun p : Ev × Bytes => ([p.1], p.2)) this]
+  | snan =>
+    refine ⟨by simp [encDFloat, encNaN], ?_⟩
+    simp only [encDFloat, encNaN, renormDF, if_true]
+    rw [List.cons_append, decodeOne_byte _ .decimal (by decide)]
+    simp only [decodeTok, List.cons_append, List.nil_append]
+    have := decodeDecimal_special 0x81 (by decide) rest
+    simp at this
+    rw [lift_bind_ok _ _ (fun p : Ev × Bytes => ([p.1], p.2)) this]
+  | val e c =>
+    simp only [dfOK, Bool.and_eq_true, decide_eq_true_eq] at hok
+    by_cases hc0 : c = 0
+    · subst hc0
+      have h := decodeOne_encPosInt 0 (by decide) rest
+      simp only [encPosInt, renormPos] at h
+      refine ⟨by simp [encDFloat, encZero], ?_⟩
+      simpa [smallIntMax, u8, encDFloat, encZero, renormDF] using h
+    · refine ⟨by simp [encDFloat, hc0], ?_⟩
+      simp only [encDFloat, hc0, if_false, renormDF]
+      rw [List.cons_append, decodeOne_byte _ .decimal (by decide)]
+      simp only [decodeTok]
+      rw [lift_bind_ok _ _ (fun p : Ev × Bytes => ([p.1], p.2)) (decodeDecimal_val e c hok.1 hok.2 hc0 rest)]
+
+theorem decodeOne_encBigDec (d : BigDec) (hok : bdOK d = true) (rest : Bytes) :
+    encBigDec d ≠ [] ∧ decodeOne (encBigDec d ++ rest) = .ok (renormBD d, rest) := by
+  cases d with
+  | inf neg =>
+    refine ⟨by simp [encBigDec, encInf], ?_⟩
+    simp only [encBigDec, encInf, renormBD]
+    rw [List.cons_append, decodeOne_byte _ .decimal (by decide)]
+    simp only [decodeTok, List.cons_append, List.nil_append]
+    cases neg
+    · have := decodeDecimal_special 0x82 (by decide) rest
+      simp at this
+      simp only [Bool.false_eq_true, if_false]
+      rw [lift_bind_ok _ _ (fun p : Ev × Bytes => ([p.1], p.2)) this]
+    · have := decodeDecimal_special 0x83 (by decide) rest
+      simp at this
+      simp only [if_true]
+      rw [lift_bind_ok _ _ (fun p : Ev × Bytes => ([p.1], p.2)) this]
+  | nan =>
+    refine ⟨by simp [encBigDec, encNaN], ?_⟩
+    simp only [encBigDec, encNaN, renormBD, Bool.false_eq_true, if_false]
+    rw [List.cons_append, decodeOne_byte _ .decimal (by decide)]
+    simp only [decodeTok, List.cons_append, List.nil_append]
+    have := decodeDecimal_special 0x80 (by decide) rest
+    simp at this
+    rw [lift_bind_ok _ _ (fun p : Ev × Bytes => ([p.1], p.2)) this]
+  | snan =>
+    refine ⟨by simp [encBigDec, encNaN], ?_⟩
+    simp only [encBigDec, encNaN, renormBD, if_true]
+    rw [List.cons_append, decodeOne_byte _ .decimal (by decide)]
+    simp only [decodeTok, List.cons_append, List.nil_append]
+    have := decodeDecimal_special 0x81 (by decide) rest
+    simp at this
+    rw [lift_bind_ok _ _ (fun p : Ev × Bytes => ([p.1], p.2)) this]
+  | val neg c e =>
+    simp only [bdOK, decide_eq_true_eq] at hok
+    by_cases hc0 : c = 0
+    · subst hc0
+      cases neg
+      · have h := decodeOne_encPosInt 0 (by decide) rest
+        simp only [encPosInt, renormPos] at h
+        refine ⟨by simp [encBigDec, encZero], ?_⟩
+        simpa [smallIntMax, u8, encBigDec, encZero, renormBD] using h
+      · have h := decodeOne_encNegInt 0 (by decide) rest
+        simp only [encNegInt, if_true, renormNeg] at h
+        exact ⟨by simp [encBigDec, encZero], by simpa [encBigDec, encZero, renormBD] using h⟩
+    · refine ⟨by simp [encBigDec, hc0], ?_⟩
+      simp only [encBigDec, hc0, if_false, renormBD]
+      rw [List.cons_append, decodeOne_byte _ .decimal (by decide)]
+      simp only [decodeTok]
+      rw [lift_bind_ok _ _ (fun p : Ev × Bytes => ([p.1], p.2)) (decodeDecimal_field e neg c hok hc0 rest)]
+      by_cases hc : c < 2 ^ 63 <;> simp [hc]
+
 theorem decodeOne_simple (st : EncSt) (e : Ev) (h : simple e = true) (bs rest : Bytes)
     (henc : encodeEv st e = .ok (st, bs)) (hc : ∀ m s, e ≠ .comment m s) :
     bs ≠ [] ∧ decodeOne (bs ++ rest) = .ok (renorm e, rest) := by
@@ -427,6 +641,19 @@ theorem decodeOne_simple (st : EncSt) (e : Ev) (h : simple e = true) (bs rest : 
     simp only [simple] at h
     simp [encodeEv] at henc; subst henc
     exact decodeOne_encFloat b h rest
+  case dfloat d =>
+    simp only [simple] at h
+    simp [encodeEv] at henc; subst henc
+    exact decodeOne_encDFloat d h rest
+  case bigDecimal o =>
+    cases o with
+    | none =>
+      simp [encodeEv] at henc; subst henc
+      exact ⟨by simp, by rw [List.singleton_append, decodeOne_byte _ .null (by decide)]; rfl⟩
+    | some d =>
+      simp only [simple] at h
+      simp [encodeEv] at henc; subst henc
+      exact decodeOne_encBigDec d h rest
   case posInt n =>
     simp [simple] at h
     simp [encodeEv] at henc; subst henc
@@ -780,6 +1007,27 @@ theorem canon_renorm (e : Ev) (h : simple e = true) (xs ys : List Ev) (hcl : cle
           simp only [h0, if_false, renormNeg]
           by_cases h1 : i.natAbs ≤ smallIntMax <;> simp [hne, h1, canon, hxy, hv]
       · simp [h64, canon, hxy]
+  case dfloat d =>
+    simp only [renorm]
+    cases d with
+    | val e c =>
+      by_cases hc0 : c = 0
+      · simp [renormDF, hc0, canon, canonDF, canonDec, hxy]
+      · simp [renormDF, hc0, canon, canonDF, hxy]
+    | _ => simp [renormDF, canon, canonDF, hxy]
+  case bigDecimal o =>
+    cases o with
+    | none => simp [renorm, canon, hxy]
+    | some d =>
+      simp only [renorm]
+      cases d with
+      | val neg c e =>
+        by_cases hc0 : c = 0
+        · cases neg <;> simp [renormBD, hc0, canon, canonBigDec, hxy]
+        · by_cases hc : c < 2 ^ 63 <;> simp [renormBD, hc0, hc, canon, canonBigDec, canonDF, hxy]
+      | inf neg => cases neg <;> simp [renormBD, canon, canonBigDec, canonDF, hxy]
+      | nan => simp [renormBD, canon, canonBigDec, canonDF, hxy]
+      | snan => simp [renormBD, canon, canonBigDec, canonDF, hxy]
   case comment m s => simp [renorm, canon, hxy]
   all_goals first
     | (simp [simple] at h; done)
@@ -820,6 +1068,17 @@ theorem clean_renorm : ∀ (l : List Ev), l.all simple = true → clean (l.flatM
     case float b =>
       simp only [renorm, renormFloat]; repeat' split
       all_goals rfl
+    case dfloat d =>
+      simp only [renorm]
+      cases d <;> simp only [renormDF] <;> repeat' split
+      all_goals rfl
+    case bigDecimal o =>
+      cases o with
+      | none => rfl
+      | some d =>
+        simp only [renorm]
+        cases d <;> simp only [renormBD] <;> repeat' split
+        all_goals rfl
     case posInt n => simp only [renorm, renormPos]; split <;> rfl
     case bool b => cases b <;> rfl
     case comment m s => simpa [renorm] using ih
